@@ -1,0 +1,27 @@
+//go:build verif
+
+package wire
+
+import "sync/atomic"
+
+// Schedule points for the external verification harness. They are compiled in
+// only with the "verif" build tag; see verif_off.go for the regular build.
+
+var verifHook atomic.Pointer[func(point string)]
+
+// VerifSetHook installs (or, with nil, removes) the function called at every
+// schedule point. Only available with the "verif" build tag.
+func VerifSetHook(fn func(point string)) {
+	if fn == nil {
+		verifHook.Store(nil)
+		return
+	}
+
+	verifHook.Store(&fn)
+}
+
+func verifPoint(point string) {
+	if fn := verifHook.Load(); fn != nil {
+		(*fn)(point)
+	}
+}
